@@ -60,5 +60,5 @@ reg(C10Check(
     ],
     modelled=["ctree/tree.go locking protocol: Add (terminalAdd, intermediateAdd incl. the RUnlock->Lock exchange at hook add:upgrade, slowAdd with its re-check), Get + Value (GetLeafValue), Query/Walk (queryInternal/enumerateChildren), Delete (DeleteConditional with the always-true condition: root write lock, then lockedDelete/internalDelete with the write lock of every visited node), Leaf.Value / Leaf.Update through retained handles; not modelled: WalkSorted, WalkDeleted and DeleteConditional with a real condition (same locking as Walk / Delete), Children, IsBranch, String"],
 ),
-    level_text="Theorems in coq/Props/C10.v are stated over a labelled transition system of the ctree locking protocol (heap of nodes with RWMutex state, one thread per API call, one step per lock operation or guarded critical section) for all programs and all interleavings: lock coupling, strictly increasing lock order, deadlock freedom, absence of data races (unconditional for the current Delete, which locks every node it visits; the pre-3480f62 variant is kept as CDeleteUnlocked with a refutation witness), exclusivity of Delete, the re-check after the reader->writer exchange and survival of all concurrent adds; plus soundness of the executable linearizability checker. The LTS is tied to ctree/tree.go by forced schedules (workers parked at add:upgrade, in Query visitors and in a paused Leaf.Update; thread statuses and TryLock probes of every node after every step must be producible by the LTS) and the implementation's histories (forced and free-running with 2..16 goroutines) are judged in Coq by the verified linearizability checker against the C09 flat specification, a weak query specification and a lock-coupling rule.",
-    level_note="linearizable_point_ops / quiescent_serializable / query_stability are NOT proved over the LTS (partial: see the comment at the end of Props/C10.v); they are checked on the implementation's own histories by the verified checker. Go memory-model races are only exhibited by the race detector (thorough tier).")
+    level_text="Theorems in coq/Props/C10.v are stated over a labelled transition system of the ctree locking protocol (heap of nodes with RWMutex state, one thread per API call, one step per lock operation or guarded critical section) for all programs and all interleavings: lock coupling, strictly increasing lock order, deadlock freedom, a returned call holds no lock, absence of data races (unconditional for the current Delete, which locks every node it visits; the pre-3480f62 variant is kept as CDeleteUnlocked with a refutation witness), exclusivity of Delete, every reachable heap is a tree, the effect of every single step on the abstraction 'value stored at a path' (Add's write = upd, Delete only removes). For programs of Add / GetLeafValue / Query / handle reads, proved over the LTS: linearizability of Add and GetLeafValue by forward simulation to the flat prefix-free map of C09 (sequential witness with the calls' answers, each returned call exactly once, real-time order), quiescent serializability (the content is the sequential application of distinct Add calls incl. every successful one), query stability in both directions, the re-check after the reader->writer exchange and survival of all concurrent adds. The LTS is tied to ctree/tree.go by forced schedules (workers parked at add:upgrade, in Query visitors and in a paused Leaf.Update; thread statuses and TryLock probes of every node after every step must be producible by the LTS); the implementation's histories (forced and free-running with 2..16 goroutines, stress runs of every exported method) are judged in Coq by the verified linearizability checker against the C09 flat specification, a weak query specification and lock-discipline rules.",
+    level_note="NOT proved over the LTS, only checked on the implementation's histories by the verified checker: linearizability / quiescent serializability / query stability in programs that contain Delete (DeleteConditional, WalkDeleted) or Leaf.Update through a handle: for Delete it is proved that its critical sections are exclusive, race-free and only remove, and that whatever is stored was written by an Add, but not that the removed set and the returned paths are exactly the specification's. Go memory-model races are only exhibited by the race detector (thorough tier).")
